@@ -35,6 +35,21 @@ func failLimited(c *Ctx, sig, detail string) {
 	}
 }
 
+// sigNorm makes a panic message usable as a signature: numbers and addresses are dropped
+func sigNorm(s string) string {
+	var b strings.Builder
+	for _, r := range s {
+		if r >= '0' && r <= '9' {
+			if b.Len() == 0 || !strings.HasSuffix(b.String(), "#") {
+				b.WriteByte('#')
+			}
+			continue
+		}
+		b.WriteRune(r)
+	}
+	return short(b.String())
+}
+
 func short(s string) string {
 	if len(s) > 160 {
 		return s[:160] + "…"
